@@ -33,9 +33,11 @@ def hStep : Handler := fun op j =>
       let rs ← getRxns j "rxns"
       pure (showBalance (← getBool j "throw") (checkBalance (← getSubs j "subs") rs (← getBool j "strict")))
   | "construct" => do
-      -- constructor with default checks; `dup_ok` = outcome of check_duplicate and check_duplicate_names (not modelled)
+      -- constructor with the selected checks; `dup_ok` = outcome of the selected ones of check_duplicate / check_duplicate_names
       let rs ← getRxns j "rxns"
-      pure (if constructorAccepts (← getSubs j "subs") rs (← getBool j "dup_ok") then "True" else "ValueError")
+      let doB := match j.getObjVal? "do_balance" with | .ok (.bool b) => b | _ => true
+      let doK := match j.getObjVal? "do_keys" with | .ok (.bool b) => b | _ => true
+      pure (if constructorChecks doB doK (← getSubs j "subs") rs (← getBool j "dup_ok") then "True" else "ValueError")
   | "balance_vectors" => do
       match compositionBalanceVectors (← getSubs j "subs") with
       | .error e => pure (showErr e)
